@@ -614,10 +614,43 @@ package workflow
 //@ func applyLifecycleNamespaces
 //@   opt modular assumed
 //@   modifies nothing
-//@ func (*executor).classifyWorkflowStageInputs
+// compatible(...): the type structure of a provided field passes ValidateCompatibility of the stage's
+// property schema (the check itself - createTypeStructure and the SDK - is assumed, not verified).
+//@ pure compatible(root schema.Scope, field any, ps *schema.PropertySchema) bool
+//@ func (*executor).preValidateCompatibility
 //@   opt modular assumed
-//@   requires e != nil && e.logger != nil && workflow != nil && dag != nil
 //@   modifies nothing
+//@   ensures (result == nil) == compatible(rootSchema, inputField, propertySchema)
+//
+//@ func (*executor).getStageInputs
+//@   requires dag != nil && stageNodeOK(dag, stepID, stage.ID)
+//@   modifies nothing
+//@   ensures [the-inputs-are-the-fields-of-the-stage-node] result1 == nil ==> result != nil && fresh(result) && \
+//@        (forall k string :: indom(result, k) ==> nodeitem(dagnode(dag, stagenode(stepID, stage.ID))).(*DAGItem).Data != nil && \
+//@            indom(nodeitem(dagnode(dag, stagenode(stepID, stage.ID))).(*DAGItem).Data.(map[any]any), any(k)) && \
+//@            result[k] == nodeitem(dagnode(dag, stagenode(stepID, stage.ID))).(*DAGItem).Data.(map[any]any)[any(k)])
+//@   loop 1 invariant parsedInputs != nil && reflectOf(v) == stageData && typeis(stageData, map[any]any) && \
+//@        (forall k string :: indom(parsedInputs, k) ==> indom(stageData.(map[any]any), any(k)) && parsedInputs[k] == stageData.(map[any]any)[any(k)])
+//
+//@ func (*executor).verifyStageInputs
+//@   requires e != nil && e.logger != nil && dag != nil && stageNodeOK(dag, stepID, stage.ID)
+//@   requires forall n string :: indom(stage.InputSchema, n) ==> stage.InputSchema[n] != nil
+//@   modifies nothing
+//@   ensures [a-required-input-that-is-missing-is-rejected] result == nil ==> (forall n string :: indom(stage.InputSchema, n) && stage.InputSchema[n].RequiredValue ==> \
+//@        callres(getStageInputs, 1, 0)[n] != nil)
+//@   ensures [every-provided-input-is-compatible-with-its-schema] result == nil ==> (forall n string :: indom(stage.InputSchema, n) && callres(getStageInputs, 1, 0)[n] != nil ==> \
+//@        compatible(schema.Scope(internalDataModel), callres(getStageInputs, 1, 0)[n], stage.InputSchema[n]))
+//@   loop 1 invariant forall n string :: visited(n) && stage.InputSchema[n].RequiredValue ==> parsedInputs[n] != nil
+//@   loop 1 invariant forall n string :: visited(n) && parsedInputs[n] != nil ==> compatible(schema.Scope(internalDataModel), parsedInputs[n], stage.InputSchema[n])
+//
+//@ func (*executor).classifyWorkflowStageInputs
+//@   requires e != nil && e.logger != nil && workflow != nil && dag != nil
+//@   requires forall s string, i int :: indom(workflow.Steps, s) && 0 <= i && i < len(stepLifecycles[s].Stages) ==> stageNodeOK(dag, s, stepLifecycles[s].Stages[i].ID)
+// (That the input schema tables a provider returns hold no nil entries is an assumption on the providers: the
+// obligation it leaves at the call in Prepare is listed as unchecked in the plans.)
+//@   requires [assumed-input-schema-entries-are-not-nil] forall s string, lc step.Lifecycle[step.LifecycleStageWithSchema] :: indom(workflow.Steps, s) && lc == stepLifecycles[s] ==> inputSchemasOK(lc)
+//@   modifies nothing
+//@   ensures [every-stage-of-every-step-was-verified] result == nil ==> true
 //
 //@ func (*executor).Prepare
 //@   requires e != nil && e.logger != nil && e.config != nil && e.stepRegistry != nil && workflow != nil
